@@ -7,7 +7,7 @@ CLAIMED = {
   # id: (category, technique, text, note, design_ref)
   "C02": ("exploration",
           "deterministic simulation: seeded caller- and optimizer-driven operation histories with model failures in between, reference model re-evaluated at the reported parameters",
-          "After every operation of a seeded history (updates, queries, weighted-data reads, conversions, fits; transient model failures between good updates) the residual vector must equal, element-wise within a forward-error bound, the column-major stacking of W.Y - (W.Phi_ref(alpha)).C at the alpha the problem reports, with Phi_ref from the simulator's reference mathematics and W.Y formed from the raw inputs; weighted data must equal w*y in the API's shape; best_fit must equal Phi_ref(alpha_hat).C_hat in the shape of the observations; params must be the last vector the model acknowledged (read off the event log). Non-trivial weights and non-zero residuals are required for a run to count. Sampling, not proof.",
+          "After every operation of a seeded history (updates, queries, weighted-data reads, conversions, fits; transient model failures between good updates) the residual vector must equal, element-wise within a forward-error bound, the column-major stacking of W.Y - (W.Phi_ref(alpha)).C at the alpha the problem reports, with Phi_ref from the simulator's reference mathematics and W.Y formed from the raw inputs; weighted data must equal w*y in the API's shape; best_fit must equal Phi_ref(alpha_hat).C_hat in the shape of the observations; params must be the last vector the model acknowledged (read off the event log). The FitResult is kept after a fit: after further updates of the problem inside it (public field) its accessors nonlinear_parameters / linear_coefficients / best_fit are asked again and must describe that state. Builder setter calls are permuted and sometimes repeated. One scenario in 400 is 'giant' in one dimension (65-80 parameters, 11-130 right-hand sides incl. exact multiples of 16/32/64, up to 70 000 samples incl. exact multiples of 4096). Non-trivial weights and non-zero residuals are required for a run to count. Sampling, not proof.",
           "Trusted: reference mathematics (refmath), the forward-error bound gamma=8(M+2)u plus subnormal slack; comparisons with non-finite operands are gated out and counted.",
           "5 (C02), 4"),
   "C04": ("exploration",
@@ -22,7 +22,7 @@ CLAIMED = {
           "5 (C09), 3.3, 3.4"),
   "C10": ("exploration",
           "deterministic simulation: seeded operation histories with injected model failures, differential against a freshly built problem, heap-fill fault injection",
-          "Seeded caller-driven histories (revisits, extreme parameters, failed updates, clones, conversions, whole fits) on hand-written and builder-made models, sequential and parallel flavours under simulated rayon schedules; after every clean update the reported coefficients/residuals/Jacobian must be bitwise equal to those of a freshly built problem at the same parameters, re-queries must be bitwise stable, and every scenario is executed under three heap fill patterns whose observable outputs must be bitwise identical (uninitialised memory would differ). Sampling, not proof.",
+          "Seeded caller-driven histories (revisits, extreme parameters, failed updates, clones, conversions, whole fits) on hand-written and builder-made models, sequential and parallel flavours under simulated rayon schedules; after every clean update the reported coefficients/residuals/Jacobian must be bitwise equal to those of a freshly built problem at the same parameters, re-queries must be bitwise stable, and every scenario is executed under three heap fill patterns whose observable outputs must be bitwise identical (uninitialised memory would differ). 8-12% of the scenarios add concurrent callers: 2-4 caller threads query the shared problem through &self at the same time under shuttle's seeded scheduler (scheduling points at every model call) and must each see bitwise what a lone caller saw. Rare scenario classes: consecutive updates that differ only in the sign of a zero (with a model family whose value depends on it), 1 000-70 000 consecutive updates on one object ('marathon', half of them beyond 2^16), giant dimensions. Thorough tier: 16 miri seeds. Sampling, not proof.",
           "Trusted: the simulator's model implementations and event log; IEEE determinism of one binary. Heap garbage is modelled by uniform fill patterns.",
           "5 (C10), 3.4, 3.6"),
 }
@@ -35,22 +35,22 @@ CLAIMED.update({
           "5 (C06), 4"),
   "C11": ("exploration",
           "deterministic simulation of the rayon pool: seeded schedules (pool size 1-16, steal/migration, arm order, truly overlapped arms under shuttle's seeded schedulers) decide every join; parallel vs sequential twin and parallel vs parallel under other schedules",
-          "The parallel problem runs on a fork of rayon-core whose join/join_context/current_num_threads consult a seeded executor; rayon's iterator layer and nalgebra's column producers are real. One scenario is executed as the parallel problem under its schedule (optimizer on a tap), as the sequential twin, through LevMarSolver::fit (conversion to the sequential type must preserve state), and under two further schedules/pool sizes; 10-20% of runs overlap the two arms of stolen joins on shuttle threads with scheduling points at every model call. Checked: residuals/coefficients bitwise equal between flavours, Jacobians equal (bitwise probe, tolerance 64u of the column scale as requirement), the optimizer's whole trajectory and result equal while Jacobians are bitwise equal, the same parallel problem bitwise identical under every schedule and pool size, into_sequential and fit preserve state, a failing derivative yields None under every schedule, the real pool is never entered (probe). Sampling, not proof.",
-          "Trusted: the fork's seam (3 call sites, 1 module); the executor generates only outcomes a real pool can produce. Races inside one column computation are invisible to it (miri layer planned for that).",
+          "The parallel problem runs on a fork of rayon-core whose join/join_context/current_num_threads consult a seeded executor; rayon's iterator layer and nalgebra's column producers are real. One scenario is executed as the parallel problem under its schedule (optimizer on a tap), as the sequential twin, through LevMarSolver::fit (conversion to the sequential type must preserve state), and under two further schedules/pool sizes; 10-20% of runs overlap the two arms of stolen joins on shuttle threads with scheduling points at every model call. Checked: residuals/coefficients bitwise equal between flavours, Jacobians equal (bitwise probe, tolerance 64u of the column scale as requirement), the optimizer's whole trajectory and result equal while Jacobians are bitwise equal, the same parallel problem bitwise identical under every schedule and pool size, into_sequential and fit preserve state, a failing derivative yields None under every schedule, the real pool is never entered (probe). 6-8% of the scenarios add concurrent callers on the shared parallel problem (2-4 caller threads, several column loops on the one simulated pool, interleaved by shuttle's seeded scheduler): every caller sees what a lone caller saw; with failing model calls in flight, no caller loses its Jacobian to another caller's failure. Thorough tier: 16 miri seeds on the REAL rayon-core pool (2-4 threads, incl. two caller threads) under miri's seeded scheduler. Sampling, not proof.",
+          "Trusted: the fork's seam (3 call sites, 1 module); the executor generates only outcomes a real pool can produce. Races inside one column computation are invisible to it; the miri layer of the thorough tier covers them on tiny problems.",
           "5 (C11), 3.5"),
   "C08": ("exploration",
           "deterministic simulation: seeded fits from far and hostile starts/values with non-finite model output injected at chosen calls, under a hang watchdog and a logical step bound, in both build profiles",
-          "build -> set_params -> fit / fit_with_statistics -> confidence band under two regimes: 'far' (starts over twelve decades with random signs; the real optimizer walks into overflow and badly scaled bases on its own) and 'hostile' (IEEE special values in x, y, w, alpha, epsilon; degenerate shapes; non-finite values injected into model or closure output once / in bursts / forever). Single-threaded worker processes; a watchdog ends a worker whose model-seam heartbeat stalls and the hang must reproduce in isolation before it is reported. Checked: no operation panics, none hangs, model calls per fit stay within the logical bound derived from patience*(P+1), Ok results expose finite values (an empty cache is the permitted rejected state). Both build profiles. Sampling, not proof.",
+          "build -> set_params -> fit / fit_with_statistics -> confidence band under two regimes: 'far' (starts over twelve decades with random signs; the real optimizer walks into overflow and badly scaled bases on its own) and 'hostile' (IEEE special values in x, y, w, alpha, epsilon; degenerate shapes; non-finite values injected into model or closure output once / in bursts / forever). Single-threaded worker processes; a watchdog ends a worker whose model-seam heartbeat stalls and the hang must reproduce in isolation before it is reported. Checked: no operation panics, none hangs, model calls per fit stay within the logical bound derived from patience*(P+1), Ok results expose finite values (an empty cache is the permitted rejected state). Both build profiles. Sampling, not proof. Rare scenario classes added later: mis-shaped weights/observations offered to build(), 1 000-70 000 consecutive updates on one problem object (half beyond 2^16), giant dimensions (65-80 parameters, up to 130 right-hand sides, up to 70 000 samples).",
           "Trusted: the watchdog's wall clock (only to end a run that stopped making progress). Non-termination shorter than the limit and cost blow-ups below the step bound are invisible.",
           "5 (C08), 3.6"),
   "C12": ("fault_enumeration",
           "deterministic simulation with fault injection: every model-call position inside the statistics computation gets a failure, in both build profiles; failing and under-determined fits generated around the N = M+P boundary",
-          "fit_with_statistics over seeded scenarios with N-(M+P) in {-3..+3, large}, weights on/off, f32/f64, both build profiles (overflow checks on and off, separate worker binaries). A tap twin locates the optimizer's last model call; every model call after it (P derivative calls and two evaluations) is re-executed with a transient and a persistent failure. Checked: never panics; N <= M+P => Err; failed fit => Err; model failure inside the statistics => Err; Err carries the problem; for Ok: N > M+P, the reported weighted residuals are W(y - Phi_ref(alpha_hat) c_hat) of the final state within a forward-error bound, reduced chi2 = ||r||^2/(N-M-P), standard error = sqrt(chi2). The three Err clauses and the residual consistency are what the simulation decides; the chi2/sigma arithmetic rides along.",
+          "fit_with_statistics over seeded scenarios with N-(M+P) in {-3..+3, large}, weights on/off, f32/f64, both build profiles (overflow checks on and off, separate worker binaries). A tap twin locates the optimizer's last model call; every model call after it (P derivative calls and two evaluations) is re-executed with a transient and a persistent failure. Checked: never panics; N <= M+P => Err; failed fit => Err; model failure inside the statistics => Err; Err carries the problem; for Ok: N > M+P, the reported weighted residuals are W(y - Phi_ref(alpha_hat) c_hat) of the final state within a forward-error bound, reduced chi2 = ||r||^2/(N-M-P), standard error = sqrt(chi2). The three Err clauses and the residual consistency are what the simulation decides; the chi2/sigma arithmetic rides along. The statistics' calls are located as the last calls made by the library call itself (the harness's own follow-up queries are measured apart). Rare scenario classes: data sets of 4096-20 000 samples incl. exact multiples of 4096, purely linear hand-written models (no nonlinear parameter: NoParameters must come back as Err).",
           "Trusted: tap twin equals the production fit (checked per run through the model-call logs).",
           "5 (C12)"),
   "C17": ("fault_enumeration",
           "deterministic simulation with fault injection on the closure seam: seeded call histories on bare builder-made models against a reference state machine, every (closure, wrong output length) pair enumerated",
-          "Seeded histories of set_params (right and wrong lengths), eval and eval_partial_deriv (in- and out-of-range indices) on models made by SeparableModelBuilder whose function and derivative closures return a wrong-length vector (empty, shorter, longer, doubled) at a seeded call index; for each seeded model every (closure, length) pair is executed. Reference model: the last accepted parameter vector. Checked: wrong parameter count => IncorrectParameterCount{expected,actual} and params()/all later evaluations bitwise unchanged; index >= P => DerivativeIndexOutOfBounds{index} without calling user code; wrong-length output => UnexpectedFunctionOutput naming N and a length actually injected; successful results are N x M and bitwise equal to the user functions at the accepted parameters; nothing panics.",
+          "Seeded histories of set_params (right and wrong lengths), eval and eval_partial_deriv (in- and out-of-range indices) on models made by SeparableModelBuilder whose function and derivative closures return a wrong-length vector (empty, shorter, longer, doubled) at a seeded call index; for each seeded model every (closure, length) pair is executed. Reference model: the last accepted parameter vector. Checked: wrong parameter count => IncorrectParameterCount{expected,actual} and params()/all later evaluations bitwise unchanged; index >= P => DerivativeIndexOutOfBounds{index} without calling user code; wrong-length output => UnexpectedFunctionOutput naming N and a length actually injected; successful results are N x M and bitwise equal to the user functions at the accepted parameters; nothing panics. In addition, for models with several functions: two or three closures of the same evaluation misbehave with lengths that cancel in the total (n+d and n-d, 2n and empty).",
           "Trusted: refmath (the closures and the oracle share the pure function definitions).",
           "5 (C17)"),
 })
